@@ -14,6 +14,42 @@ NOTE = ("Trusted: Lean 4.33 kernel; axioms of every listed theorem ⊆ {propext,
         "object identity and file I/O are modelled away (exact rationals on a dyadic grid, explicit iteration orders).")
 
 CLAIMS = {
+    "C02": dict(text="Proved for the model: perform subtracts exactly contrib from a WORKING task on an active step and leaves every other task alone (C02_perform); "
+                     "under the allocation invariant contrib is the documented plain sum (divisor 1; an absent or unskilled member contributes 0: C02_contrib, "
+                     "C02_contrib_zero); no other phase changes remaining work except check_finished clamping finished tasks to 0 (C02_frame, C02_chkFinished_rem); "
+                     "a task finishes iff it was WORKING with remaining <= 0 and its finish gate holds in the resulting state — never earlier, and always then "
+                     "(C02_finish_iff, closure by the counting argument); step/run/log-level recurrences (C02_iteration, C02_run_log, C02_run_finished_zero). "
+                     "Exact on the dyadic grid; float rounding is not modelled.",
+                design="6 C02", technique="Lean 4 proof (frame lemmas, fixpoint of the finish closure, log/trace bridge) + phase-level correspondence"),
+    "C03": dict(text="Proved for the model: AllocInv (two-way consistency, at most one task per worker/facility, no duplicates, only READY/WORKING tasks hold) and "
+                     "HoldWorking hold at every updated and ticked state, ResInv (state = ABSENCE if absent else WORKING iff assigned) at every ticked state "
+                     "(C03_trace, C03_updated, C03_run_partial), finished tasks hold nothing and their workers are detached (C03_released, "
+                     "C03_chkFinished_released). `_partial` = the run-level theorems assume the entry state is clean outside the index ranges (true of "
+                     "any real project; an artefact of total functions), with machine-checked counterexamples for the unguarded statements.",
+                design="6 C03", technique="Lean 4 invariant proof (fold invariant of the allocation loop with the free-worker list) + phase-level correspondence"),
+    "C04": dict(text="Proved for the model: EligInv (every held worker has positive skill, a targeting team, is in the fixed list; solo members alone; "
+                     "worker/facility pairs by position with facility skill, targeting workplace, fixed list and operating skill; automatic tasks hold "
+                     "nothing) is preserved by every phase and holds at every state of every run (C04_trace, C04_run); a newly added worker was FREE, "
+                     "not absent and unassigned at that moment (C04_added, C04_added_present, C04_moment); allocate only appends (C04_prefix).",
+                design="6 C04", technique="Lean 4 invariant proof over the allocation folds (can_add_resources branch by branch) + phase-level correspondence"),
+    "C05": dict(text="Safety half proved for the model: simulate returns, its fuel is never the reason to stop (C05_fuel), status SUCCESS iff all tasks "
+                     "FINISHED, FAILURE only at time >= max_time, no step at or beyond max_time (C05_status, C05_run_time), and a non-automatic unfinished "
+                     "task without any eligible worker prevents SUCCESS (C05_unservable). The liveness half (every feasible project completes within the "
+                     "sequential work bound) is NOT a theorem yet: it is checked by search only (feasible generated models must succeed) — partial.",
+                design="6 C05", technique="Lean 4 proof of the loop skeleton and of the unservable-task invariant + whole-run correspondence (status, time)"),
+    "C10": dict(text="Clauses 1-2 proved for the model: at a project absence step nothing is allocated, non-automatic tasks keep their remaining work, "
+                     "automatic ones progress iff the flag is set, every resource is logged ABSENCE and every cost entry is 0 (C10_absence_step, "
+                     "C10_run_absence_entry, C10_run_absence_rem); an individually absent resource is ABSENCE, contributes 0 and costs 0 "
+                     "(C10_individual_worker/fac). Clause 3 (removing the absence steps gives the absence-free run) is NOT a theorem: it is checked on "
+                     "real histories by search only — partial.",
+                design="6 C10", technique="Lean 4 proof from the working-gating of the step + correspondence on absence, cost, perform, record phases"),
+    "C13": dict(text="Proved for the model on flat products (PlaceWF: no parent/child links, sizes and capacities >= 0, task/component links and "
+                     "facility/workplace links consistent): PlaceInv (component listed exactly where it reports being placed, at most one workplace, "
+                     "capacity never exceeded, facilities of a task belong to the workplace where its component is) at every state of every run "
+                     "(C13_trace, C13_run); a component moves at most once per pass, never while a task of it is WORKING, and enters a workplace with "
+                     "inputs only from one of them or from nowhere (C13_moves, C13_moves_step); finished top-level components are unplaced at the "
+                     "updated boundary (C13_removed_run). Nested products are outside the model (not claimed).",
+                design="6 C13", technique="Lean 4 invariant proof over placement/allocation folds with a ghost list of moved components + phase-level correspondence"),
     "C01": dict(text="Proved for the model, for every model size, dependency mix, rule, absence list and step count: the dependency invariant DepInv "
                      "holds at every `updated` and `ticked` state of every run (C01_trace/C01_run/C01_final), task states only move forward "
                      "(C01_mono_*), and the logged (displayed) states satisfy the same clauses (C01_shown/C01_logged). The model is tied to the "
